@@ -126,6 +126,7 @@ type Backend struct {
 	OptionsReplies         []Outcome                // raw replies handed out, one each, to the next OPTIONS (heartbeats) of started connections
 	FailSystemOn           map[string]bool          // hosts (IP) whose system-table queries are answered with SERVER_ERROR (no control connection there)
 	ScriptBeforeUnprepared bool                     // EXECUTEs of unknown ids whose token has a script get the scripted outcome, not UNPREPARED
+	SlowStartupHosts       map[string]time.Duration // per host (IP): STARTUPs on that host are answered after this delay
 	StartupDelay           time.Duration            // every STARTUP is answered after this delay (widens the window in which a session is being created)
 	PrepareErr             map[string][]Outcome     // per prepared-id (hex) outcomes of PREPARE attempts
 	prepAttempts           map[string]int
@@ -335,6 +336,16 @@ func (b *Backend) SetScriptBeforeUnprepared(on bool) {
 func (b *Backend) SetStartupDelay(d time.Duration) {
 	b.mu.Lock()
 	b.StartupDelay = d
+	b.mu.Unlock()
+}
+
+// SetSlowStartupHost makes every later STARTUP on host n wait before it is answered (0: no longer).
+func (b *Backend) SetSlowStartupHost(n int, d time.Duration) {
+	b.mu.Lock()
+	if b.SlowStartupHosts == nil {
+		b.SlowStartupHosts = map[string]time.Duration{}
+	}
+	b.SlowStartupHosts[b.IP(n)] = d
 	b.mu.Unlock()
 }
 
@@ -792,6 +803,9 @@ func (c *Conn) handle(hdr, body, raw []byte) bool {
 		}
 		c.logRec(rec)
 		sdelay := be.StartupDelay
+		if d := be.SlowStartupHosts[c.host.IP]; d > sdelay {
+			sdelay = d
+		}
 		be.mu.Unlock()
 		if sdelay > 0 {
 			time.Sleep(sdelay)
